@@ -182,27 +182,38 @@ unsafe fn level_swap<M: Manager>(
             .collect();
 
         drop(grandchildren);
-        for child in children {
-            // Revisit the "old" children of `e`. If these are the only
-            // children, we may remove them, if they are on the old lower level.
-            // (A child might also be at some lower level, in which case the
-            // node could also be removed. However we must not access such a
-            // node.)
-            if let Node::Inner(child_node) = manager.get_node(&*child)
-                && child_node.level() == lower_no_pre
-                && child_node.ref_count() == 1
-            {
-                // The reference stems from the old `node`, whose children
-                // we replace below. Hence, we can remove child node.
-                upper.remove(child_node);
-            }
-        }
-
-        upper.insert(manager.clone_edge(e));
+        drop(children);
         for (i, child) in new_children.into_iter().enumerate() {
             // SAFETY: we have exclusive access to all nodes at the old upper
             // level and no child is borrowed.
-            manager.drop_edge(unsafe { node.set_child(i, child) });
+            let old_child = unsafe { node.set_child(i, child) };
+            // Revisit the "old" child of `e`. If `node` held the only
+            // reference to it, we may remove it, if it is on the old lower
+            // level. (A child might also be at some lower level, in which case
+            // the node could also be removed. However we must not access such a
+            // node.)
+            let unreferenced = match manager.get_node(&old_child) {
+                Node::Inner(child_node)
+                    if child_node.level() == lower_no_pre && child_node.ref_count() == 1 =>
+                {
+                    Some(child_node)
+                }
+                _ => None,
+            };
+            manager.drop_edge(old_child);
+            if let Some(child_node) = unreferenced {
+                // The only remaining reference is the one of the unique table.
+                upper.remove(child_node);
+            }
+        }
+        // The children (and thus the hash value) of `node` are final now.
+        // `node` stays at the upper level, where all nodes carry
+        // `lower_no_pre` until the caller updates the level numbers.
+        // SAFETY: we have exclusive access to the node, and the caller will
+        // update level numbers accordingly
+        unsafe {
+            node.set_level(lower_no_pre);
+            upper.insert_unchecked(manager.clone_edge(e));
         }
     }
 
